@@ -14,6 +14,7 @@ TraceInit == /\ tid \in 1 .. Len(Traces) /\ l = 1 /\ Init /\ TLCSet(tid, 1)
 HeadKind == IF rq = <<>> THEN "" ELSE Head(rq)[1]
 Event(ev) ==
     CASE ev.ev = "Call" -> Call(ev.p)
+      [] ev.ev = "AsyncEmit" -> AsyncEmit(ev.p, ev.fails) /\ cflag'[ev.p] = ev.flag
       [] ev.ev = "Deliver" -> HeadKind = "frun" /\ Head(rq)[2] = ev.p /\ Step /\ ev.k = ncall[ev.p]
       [] ev.ev = "Finish" -> Finish(ev.ps, ToSet(ev.bad))
       [] ev.ev = "Return" -> Return(ev.p) /\ results'[Len(results')] = <<ev.p, ev.k, ev.kind>>
@@ -25,6 +26,6 @@ TraceNext ==
        /\ ((NoSpuriousError /\ ~NoSpuriousError') => PrintT(<<"UNSAFE", Traces[tid].id, l>>))
     \/ /\ l <= Len(T) /\ HeadKind \in {"fstart", "co", "ffinal"} /\ Step /\ UNCHANGED <<tid, l>>
 TraceSpec == TraceInit /\ [][TraceNext]_tvars
-TraceInv == TypeOK /\ WaitsForConsumer /\ ReturnedAfterDelivery /\ PerProducerOrder
+TraceInv == TypeOK /\ FlagRestored /\ WaitsForConsumer /\ ReturnedAfterDelivery /\ PerProducerOrder
 Report == \A i \in 1 .. Len(Traces) : PrintT(<<"REACHED", Traces[i].id, TLCGet(i), Len(Traces[i].ev) + 1>>)
 =============================================================================
